@@ -301,6 +301,8 @@ def finish(ctx, rule, exhaustive=False, explanation=None):
     cov["exhaustive"] = bool(exhaustive)
     if explanation:
         cov["explanation"] = explanation
+    if not cov["samples"]:
+        cov["samples"] = [{"kind": "violation", "what": w[:300]} for w, _ in ctx.violations[:2]] or [{"kind": "tlc run", "run": x} for x in cov["tlc_runs"][:1]]
     cov["checker_cmd"] = "bin/check %s --tier %s" % (ctx.id, ctx.tier)
     cov["known_findings_reported"] = list(ctx.known)
     if ctx.notes:
